@@ -24,3 +24,10 @@ pub fn param_from_iso2(t: &Iso2) -> T2Storage {
     let z = t.rotation.angle();
     T2Storage::new(v.x, v.y, z)
 }
+
+/// Verification hooks (cargo feature `verif`): the analytic Jacobian row of the private `jacobian`
+/// module.
+#[cfg(feature = "verif")]
+pub mod verif {
+    pub use super::jacobian::point_surface_jacobian;
+}
